@@ -35,6 +35,10 @@ func (s *Sess) call(in ssa.CallInstruction, st *State) []Val {
 		resTypes = append(resTypes, sig.Results().At(i).Type())
 	}
 	if b, ok := com.Value.(*ssa.Builtin); ok {
+		// builtins (append, copy, ...) are assertion sites too: `assert at append#k`
+		if s.inlineDepth == 0 {
+			s.checkAssertsAt(in, "builtin."+b.Name(), st)
+		}
 		return s.builtin(in, b, st)
 	}
 	// gather argument values (receiver first)
